@@ -529,3 +529,27 @@ def rule_episode_state_reset(prog: Program, col: Collector) -> None:
                       construct=f"not-reset:{attr}",
                       necessity="reset forgets everything but the minimal information: a counter, cache or saved array that survives reset leaks the previous episode "
                                 "(or the constructor-time game) into the observations, masks or rewards of the next one")
+
+
+def rule_env_observers_pure(prog: Program, col: Collector) -> None:
+    """OBS-E: what an environment reports (its properties, the action mask) is a function of its state - reading it changes nothing."""
+    col.rule("OBS-E", "properties and mask accessors of the environments store nothing into the environment (no latch, no cache)", 4)
+    for cq in (GYM, LIN):
+        for name, m in prog.methods(cq).items():
+            if not (m.is_property() or name in ("action_masks", "valid_action_mask", "compute_reward")):
+                continue
+            ft = fterms(prog, m)
+            hits = []
+            for e in list(ft.of_kind("store")) + list(ft.of_kind("aug")):
+                if e.obj == SELF and e.attr is not None:
+                    hits.append((e, f"self.{e.attr}"))
+                elif e.index is not None and isinstance(e.obj, tuple) and e.obj[0] == "attr" and e.obj[1] == SELF:
+                    hits.append((e, f"self.{e.obj[2]}[...]"))
+            for e in ft.calls():
+                if e.recv is not None and e.recv[0] == "attr" and e.recv[1] == SELF and e.name in (
+                        "append", "add", "update", "setdefault", "pop", "clear", "extend", "insert", "remove", "discard", "popitem"):
+                    hits.append((e, f"self.{e.recv[2]}.{e.name}()"))
+            col.check(not hits, m.where(hits[0][0].node if hits else None), m.short,
+                      f"{name} stores nothing into the environment" + (f" (found: {hits[0][1]})" if hits else ""), construct=f"observer-stores:{name}",
+                      necessity="a flag or cache set while reading (`done` latched once true, a remembered mask) is not undone by unstep(): after a solver's probe "
+                                "step()/unstep() the table is restored but the environment still reports the probed state - done stays true with actions left")
